@@ -460,7 +460,7 @@ def _getput_line_comment(
     # put operation
 
     if comment is not None:
-        if '\n' in comment:
+        if '\n' in comment or '\r' in comment:  # python also ends the line at a carriage return
             raise ValueError('line comment cannot have newlines in it')
 
         if full:
